@@ -26,10 +26,43 @@ type vf08World struct {
 	shared  int
 	done    int
 	lie     string
-	tries   [8]int // per-thread: number of failed try-acquires
+	n       int
+	tries   []int // per-thread: number of failed try-acquires
+	// a try-acquire in progress (between its invocation and its return) and whether anybody held the lock at some
+	// moment of that interval: a false result is a lie only if nobody did (the call may take several atomic steps)
+	trying    []bool
+	sawHeld   []bool
+	acquiring []bool // a blocking Acquire is in progress: it may take effect at any moment before it returns
 }
 
-func (w *vf08World) reset() { *w = vf08World{owner: -1} }
+// overlap marks every try-acquire in progress as having overlapped a holder (or a caller about to become one).
+func (w *vf08World) overlap() {
+	for i := range w.trying {
+		if w.trying[i] {
+			w.sawHeld[i] = true
+		}
+	}
+}
+
+func (w *vf08World) anyAcquiring(except int) bool {
+	for i, a := range w.acquiring {
+		if a && i != except {
+			return true
+		}
+	}
+	return false
+}
+
+// took records that tid is now inside the lock: every try-acquire in progress has overlapped a holder.
+func (w *vf08World) took(tid int) {
+	w.owner = tid
+	w.overlap()
+}
+
+func (w *vf08World) reset() {
+	n := w.n
+	*w = vf08World{owner: -1, n: n, tries: make([]int, n), trying: make([]bool, n), sawHeld: make([]bool, n), acquiring: make([]bool, n)}
+}
 
 func (w *vf08World) cs(tid int) {
 	w.holders++
@@ -48,37 +81,40 @@ func (w *vf08World) prog(tid int, ops string) func() {
 			vs.Progress(i + 1)
 			switch o {
 			case 'A':
+				w.acquiring[tid] = true
+				w.overlap()
 				w.l.Acquire()
+				w.acquiring[tid] = false
 				if w.owner != -1 && w.lie == "" {
 					w.lie = fmt.Sprintf("Acquire returned to T%d while T%d holds the lock", tid, w.owner)
 				}
-				w.owner = tid
+				w.took(tid)
 				w.cs(tid)
 				w.l.Release()
 				w.owner = -1 // same scheduler step as the releasing store
 			case 'T':
+				w.trying[tid], w.sawHeld[tid] = true, w.owner != -1 || w.anyAcquiring(tid)
 				ok := w.l.TryToAcquire()
+				w.trying[tid] = false
 				// the swap and this code run in one scheduler step: the world is as it was at the swap
 				if ok {
 					if w.owner != -1 && w.lie == "" {
 						w.lie = fmt.Sprintf("TryToAcquire returned true to T%d while T%d holds the lock", tid, w.owner)
 					}
-					w.owner = tid
+					w.took(tid)
 					w.cs(tid)
 					w.l.Release()
 					w.owner = -1
 				} else {
 					w.tries[tid]++
-					if w.owner == -1 && w.lie == "" {
-						w.lie = fmt.Sprintf("TryToAcquire returned false to T%d although nobody holds the lock", tid)
-					}
-					if w.l.state != 1 && w.lie == "" {
-						w.lie = fmt.Sprintf("a failed TryToAcquire left the lock word at %d", w.l.state)
+					if !w.sawHeld[tid] && w.lie == "" {
+						w.lie = fmt.Sprintf("TryToAcquire returned false to T%d although nobody held the lock at any moment of the call", tid)
 					}
 				}
 			case 'R': // release of a free lock (single-thread scenarios only): no effect
+				before := w.l
 				w.l.Release()
-				if w.l.state != 0 && w.lie == "" {
+				if w.l != before && w.lie == "" {
 					w.lie = "Release of a free lock changed its state"
 				}
 			}
@@ -100,6 +136,7 @@ func vf08Setup(w *vf08World, progs []string, yield bool) (func() []func(), *vs.S
 	} else {
 		yieldFn = nil
 	}
+	w.n = len(progs)
 	mk := func() []func() {
 		w.reset()
 		var bs []func()
@@ -110,7 +147,7 @@ func vf08Setup(w *vf08World, progs []string, yield bool) (func() []func(), *vs.S
 	}
 	s := &vs.Sched{}
 	s.StateFn = func() string {
-		return fmt.Sprintf("%d,%d,%d,%d,%d,%v", w.l.state, w.holders, w.shared, w.done, w.owner, w.tries[:len(progs)])
+		return fmt.Sprintf("%v,%d,%d,%d,%d,%v,%v,%v,%v", w.l, w.holders, w.shared, w.done, w.owner, w.tries[:len(progs)], w.trying[:len(progs)], w.sawHeld[:len(progs)], w.acquiring[:len(progs)])
 	}
 	s.Monitor = func() string {
 		if w.holders > 1 {
@@ -126,7 +163,9 @@ func vf08Final(w *vf08World, nCS int) string {
 	if w.shared != w.done {
 		return fmt.Sprintf("lost update: %d critical sections completed but the protected counter is %d", w.done, w.shared)
 	}
-	if w.l.state != 0 {
+	final := new(Spinlock) // judged by behaviour, not by the value of the lock word
+	*final = w.l
+	if !final.TryToAcquire() {
 		return "the lock is left held after every task released it"
 	}
 	if w.lie != "" {
@@ -147,6 +186,9 @@ func TestVerifC08(t *testing.T) {
 	var rp vf08Replay
 	if run.Replaying(&rp) {
 		mk, s := vf08Setup(w, rp.Progs, rp.Yield)
+		if rp.Bound == -2 { // the many-callers schedule
+			s.MaxSteps = 20000000
+		}
 		x := s.Run(mk(), rp.Schedule)
 		run.Case()
 		msg := x.Err
@@ -216,7 +258,51 @@ func TestVerifC08(t *testing.T) {
 			}
 		}
 	}
-	run.Finish(complete, fmt.Sprintf("%d thread configurations (2-3 threads, 4 in thorough; programs over A=acquire+CS+release, T=try, R=release-when-free) x yieldFn {nil, scheduler yield}: every schedule with <=%d preemptions and the unbounded state-pruned pass", len(configs), bounds[len(bounds)-2]),
+	// many simultaneous callers (more than fit an 8-bit count): 257 tasks arriving together, scheduled in lock step
+	// (least recently run first) - one directed schedule per yieldFn setting, judged by the same monitors
+	if run.Mine(idx + 1) {
+		const many = 257
+		cfg := make([]string, many)
+		for i := range cfg {
+			cfg[i] = "A"
+		}
+		for _, yield := range []bool{false, true} {
+			mk, s := vf08Setup(w, cfg, yield)
+			s.MaxSteps = 20000000
+			last := make([]int, many)
+			tick := 0
+			s.Policy = func(enabled []int, cur int) int {
+				best := 0
+				for i, e := range enabled {
+					if last[e] < last[enabled[best]] {
+						best = i
+					}
+				}
+				tick++
+				last[enabled[best]] = tick
+				return best
+			}
+			x := s.Run(mk(), nil)
+			run.Case()
+			run.Evaluations++
+			run.Transitions += int64(x.Steps)
+			msg := x.Err
+			if msg == "" && x.Deadlock {
+				msg = "deadlock: some task is unfinished and no task can make progress"
+			}
+			if msg == "" {
+				msg = vf08Final(w, 0)
+			}
+			if msg == "" && w.done != many {
+				msg = fmt.Sprintf("lost update: %d of %d critical sections completed", w.done, many)
+			}
+			if msg != "" {
+				run.Violate(vf08Class(msg), fmt.Sprintf("many-callers yield=%v", yield), fmt.Sprintf("%d tasks calling Acquire together, lock-step schedule, yieldFn=%v: %s", many, yield, msg), vf08Replay{Progs: cfg, Yield: yield, Bound: -2, Schedule: vs.Choices(x)})
+			}
+			run.ForceSample(map[string]interface{}{"threads": fmt.Sprintf("%d x A", many), "yield_fn": yield, "schedule": "lock step (least recently run first)", "steps": x.Steps})
+		}
+	}
+	run.Finish(complete, fmt.Sprintf("%d thread configurations (2-3 threads, 4 in thorough; programs over A=acquire+CS+release, T=try, R=release-when-free) x yieldFn {nil, scheduler yield}: every schedule with <=%d preemptions and the unbounded state-pruned pass; plus 257 tasks acquiring together under one lock-step schedule", len(configs), bounds[len(bounds)-2]),
 		"stateless DFS with iterative preemption bounding over the real Go methods + interpreted real assembly; unbounded pass prunes on (lock word, harness counters, per-thread pc/registers); distinct = (configuration, outcome vector)")
 }
 
